@@ -315,6 +315,14 @@ class FSM:
     def reachable(self, feedable):
         """Breadth-first closure of the initial abstract state under the
         inputs the stream API can feed."""
+        cache = self.__dict__.setdefault('_reach_cache', {})
+        if id(feedable) in cache and cache[id(feedable)][0] is feedable:
+            return cache[id(feedable)][1]
+        res = self._reachable(feedable)
+        cache[id(feedable)] = (feedable, res)
+        return res
+
+    def _reachable(self, feedable):
         init = INITIAL
         seen = {init}
         order = [init]
